@@ -141,7 +141,8 @@ def main(argv=None):
         ctx = mp.get_context('spawn')
         # watchdog: a shard that is still running long after every per-obligation budget has expired
         # (a single solver call that never returns) is abandoned and reported as inconclusive
-        hard = time.time() + 2.0 * max(t[6] for t in tasks) + 120
+        t_pool = time.time()
+        hard = t_pool + 2.0 * max(t[6] for t in tasks) + 120
         pool = ctx.Pool(min(a.jobs, len(tasks)))
         try:
             pending = [(t, pool.apply_async(core.run_shard, (t,))) for t in tasks]
@@ -150,12 +151,14 @@ def main(argv=None):
                 for t, ar in pending:
                     if ar.ready():
                         results.append(ar.get())
+                    elif time.time() > t_pool + 2.0 * t[6] + 120:
+                        timed_out.append(t)          # this obligation's own budget is long gone (expensive obligations are started first)
                     else:
                         still.append((t, ar))
                 pending = still
                 if pending:
                     time.sleep(0.2)
-            timed_out = [t for t, _ in pending]
+            timed_out += [t for t, _ in pending]
         finally:
             pool.terminate()
             pool.join()
